@@ -360,6 +360,10 @@ pub fn build_prestates() -> (Vec<Arc<PreState>>, Vec<String>) {
         // two pending updates (overwrite, tombstone) sit behind each
         build_prestate("S3639+U2mixed-saved", fill_ops(3639), true, mixed_ops(2), Persist::SaveAll, (3639, 2)),
         build_prestate("S3640+U2mixed-saved", fill_ops(3640), true, mixed_ops(2), Persist::SaveAll, (3640, 2)),
+        // … and 25 484 entries end *exactly* on a boundary (0x28 + 18 · 25 484 = 7 · 65 536): the
+        // only count below 2^15 for which "round up to the next boundary" and "the next boundary
+        // after this byte" differ
+        build_prestate("S25484+U2mixed-saved", fill_ops(25_484), true, mixed_ops(2), Persist::SaveAll, (25_484, 2)),
     ];
     for b in built {
         match b {
@@ -1578,7 +1582,7 @@ pub fn run(tier: Tier, seed: u64) -> i32 {
             "empty" | "U1260-mem" | "S1260" | "S1260+U1260mixed-saved" => tier.pick(3, 4),
             "U1260-saved" => tier.pick(3, 3),
             "U1259-saved" => tier.pick(2, 4),
-            "S3639+U2mixed-saved" | "S3640+U2mixed-saved" => tier.pick(1, 2),
+            "S3639+U2mixed-saved" | "S3640+U2mixed-saved" | "S25484+U2mixed-saved" => tier.pick(1, 2),
             _ => tier.pick(2, 3), // U1259-mem, S1260+U1259mixed-saved
         };
         let st = explore(&s, &SeqBounds::depth(depth).with_budget(left), &rep);
